@@ -111,6 +111,19 @@ CHECKS.update({
                   'output, stderr on failure, stdout = fold of the library in command-line order (value and bytes).'),
 })
 
+CHECKS.update({
+ 'C09': dict(engine='process', ref='6/C09', technique='TLA+ contract History.tla (result = function of arguments, inputs unchanged) with TLC enumerating all call histories; '
+             'each history replayed in one process over shared buffers and shared decoded patches',
+             text='All histories of length 3 over 20 calls and of length 2 over ~110 calls (thorough: 4 / 3), including failing and malformed calls '
+                  'between identical successful ones and one decoded Patch applied to several documents; result, byte identity with the first '
+                  'occurrence, buffer snapshots (with guard capacity) and deep Patch snapshots are checked after every call.'),
+ 'C10': dict(engine='process', ref='6/C10', technique='History.tla with several processes (all call-level interleavings enumerated by TLC); goroutine-per-process replay under the Go '
+             'race detector, results compared with the contract',
+             text='All assignments of 3 calls to 2 processes (thorough: 3 processes, 4 calls, the full call set) over one shared Patch and shared '
+                  'buffers, 16 lines in flight; results must equal the sequential contract and the race detector must stay silent.',
+             note=TB + '; the Go race detector is the observer of data races (a TLA+ specification cannot decide them); silence is evidence, not proof'),
+})
+
 NA = {}
 
 
@@ -149,6 +162,7 @@ def main():
             {'name': 'text', 'path': 'spec/Scanner.tla spec/JsonText.tla spec/JsonEnc.tla spec/MCScanner.tla spec/MCCodec.tla', 'serves_properties': ['C16', 'C17', 'C04', 'C06'],
              'kind_free_text': 'scanner push-down automaton and its transducers transcribed to TLA+, declarative grammar, encoder spelling'},
             {'name': 'cli', 'path': 'spec/Cli.tla', 'serves_properties': ['C20'], 'kind_free_text': 'state machine of cmd/json-patch'},
+            {'name': 'process', 'path': 'spec/History.tla', 'serves_properties': ['C09', 'C10'], 'kind_free_text': 'the API as a set of pure calls over shared buffers; sequential histories and multi-process interleavings'},
             {'name': 'patch', 'path': 'spec/Patch6902.tla spec/MCPatch.tla harness/cmd/replay', 'serves_properties':
                 ['C01', 'C05', 'C08', 'C12', 'C13', 'C14', 'C15'],
              'kind_free_text': 'TLA+ reference machine for RFC 6902 application, TLC-enumerated, transitions replayed into the library'},
